@@ -160,3 +160,61 @@ pub fn resumption(a: [u64; 8], b: [u64; 8], ga: bool, gb: bool, da: bool, db: bo
     core::mem::forget(r);
     if want_err { 2 } else { 1 }
 }
+
+/// C10 / C03: `PreferredAddress::read` on an arbitrary buffer of `len` <= 64 bytes against the layout
+/// of RFC 9000 §18.2 (IPv4 4 + port 2 + IPv6 16 + port 2 + CID length 1 + CID 0..=20 + token 16), and
+/// `write` of the decoded value reproducing exactly the bytes consumed.
+pub fn preferred_address_read(buf: [u8; 64], len: usize) -> u32 {
+    if len > 64 {
+        return 0;
+    }
+    let mut r = &buf[..len];
+    let res = PreferredAddress::read(&mut r);
+    let cid_len = buf[24] as usize;
+    let well_formed = len >= 25 && cid_len <= MAX_CID_SIZE && len >= 25 + cid_len + 16;
+    let v4_absent = buf[0] == 0 && buf[1] == 0 && buf[2] == 0 && buf[3] == 0 && buf[4] == 0 && buf[5] == 0;
+    let mut v6_absent = buf[22] == 0 && buf[23] == 0;
+    let mut i = 6;
+    while i < 22 {
+        v6_absent &= buf[i] == 0;
+        i += 1;
+    }
+    match res {
+        Err(e) => {
+            assert!(!well_formed || (v4_absent && v6_absent));
+            if well_formed {
+                assert!(matches!(e, Error::IllegalValue));
+                8
+            } else {
+                assert!(matches!(e, Error::Malformed));
+                4
+            }
+        }
+        Ok(p) => {
+            assert!(well_formed && !(v4_absent && v6_absent));
+            assert!(r.len() == len - (41 + cid_len));
+            assert!(p.wire_size() as usize == 41 + cid_len);
+            assert!(p.connection_id.len() == cid_len);
+            if cid_len > 0 {
+                assert!(p.connection_id[0] == buf[25] && p.connection_id[cid_len - 1] == buf[25 + cid_len - 1]);
+            }
+            assert!(p.stateless_reset_token[0] == buf[25 + cid_len] && p.stateless_reset_token[15] == buf[25 + cid_len + 15]);
+            assert!(p.address_v4.is_none() == v4_absent && p.address_v6.is_none() == v6_absent);
+            if let Some(a) = p.address_v4 {
+                assert!(a.ip().octets() == [buf[0], buf[1], buf[2], buf[3]] && a.port() == u16::from_be_bytes([buf[4], buf[5]]));
+            }
+            if let Some(a) = p.address_v6 {
+                assert!(a.ip().octets()[0] == buf[6] && a.ip().octets()[15] == buf[21] && a.port() == u16::from_be_bytes([buf[22], buf[23]]));
+            }
+            // write reproduces the consumed bytes
+            let mut out = [0u8; 64];
+            let mut w = &mut out[..];
+            p.write(&mut w);
+            let n = 64 - w.len();
+            assert!(n == 41 + cid_len);
+            assert!(out[24] == buf[24] && out[0] == buf[0] && out[5] == buf[5] && out[6] == buf[6] && out[23] == buf[23]);
+            assert!(out[n - 1] == buf[n - 1] && out[25 + cid_len] == buf[25 + cid_len]);
+            if cid_len == MAX_CID_SIZE { 3 } else { 1 }
+        }
+    }
+}
